@@ -109,7 +109,29 @@ def row_body(chk) -> RowBody:
     if len(rets) != 1:
         raise AnalysisError(f"FrameData._make_body_bytes: expected one return, found {len(rets)}")
     seen_piece = False
-    for p in _parts(rets[0]):
+    ret = rets[0]
+    if is_call(ret, "join", 1) and ret[2][0][0] == "list":
+        # b''.join(parts) with parts = [head...] extended / appended to afterwards
+        lit = ret[2][0]
+        rb.head.extend(lit[1])
+        for e in su.effects:
+            if e.kind != "call" or e.value[1][0] != "attr" or e.value[1][1] != lit:
+                continue
+            if e.value[1][2] == "extend" and e.value[2] and e.value[2][0][0] == "comp" and \
+                    len(e.value[2][0][3]) == 1 and not e.value[2][0][3][0][2] and not e.pc and not e.loops():
+                comp = e.value[2][0]
+                it = comp[3][0][1]
+                els = [x for x in subterms(comp[2]) if x[0] == "elem" and x[1] == it]
+                rb.pieces.append((it, els[0] if els else None, comp[2]))
+            elif e.value[1][2] == "append" and len(e.loops()) == 1 and e.loops()[0][0] == "for" and not e.pc:
+                it, lid = e.loops()[0][2], e.loops()[0][1]
+                rb.pieces.append((it, ("elem", it, lid), e.value[2][0]))
+            elif e.value[1][2] == "append" and not e.loops() and not e.pc:
+                (rb.tail if rb.pieces else rb.head).append(e.value[2][0])
+            else:
+                raise AnalysisError("FrameData._make_body_bytes: the list of parts is built in an unrecognised way")
+        return rb
+    for p in _parts(ret):
         if p[0] == "fold":
             _, lid, name, init, upd, it = p
             mu = ("mu", lid, name)
